@@ -32,6 +32,7 @@ void _ZdlPv(void* p) { free(p); }                                   /* operator 
    (or by flmodel.h: head pointer only) */
 void __ipr_fl_push(void* list, void* node);
 void* __ipr_fl_front(void* list);
+void* __ipr_fl_insert_after(void* list, void* pos, void* node);
 
 _Bool nondet_bool(void);
 int nondet_int(void);
